@@ -391,13 +391,43 @@ def changed_files(pid, fps):
 # running cases
 # ---------------------------------------------------------------------------
 
+SHARD_OUT_CAP = 256 * 1024 * 1024      # bytes of output per shard; more than that is a runaway case
+
+
 def _run_shard(args):
+    """run one shard with its output streamed to a file (never into memory): a case that makes
+    the program print without end, or hang, is cut off by the size cap / the timeout and shows
+    up as `CRASH rc=..` on the case at which the output stopped"""
     exe_cmd, path, timeout = args
-    rc, out = sh(exe_cmd + [path], timeout=timeout)
+    outp = path + ".out"
+    t0 = time.time()
+    rc = None
+    with open(outp, "wb") as fo:
+        p = subprocess.Popen(exe_cmd + [path], stdout=fo, stderr=subprocess.STDOUT)
+        while True:
+            try:
+                rc = p.wait(timeout=0.5)
+                break
+            except subprocess.TimeoutExpired:
+                pass
+            too_big = os.path.getsize(outp) > SHARD_OUT_CAP
+            if too_big or time.time() - t0 > timeout:
+                p.kill()
+                p.wait()
+                rc = "killed:%s" % ("output>%dMB" % (SHARD_OUT_CAP >> 20) if too_big else "timeout>%ds" % timeout)
+                break
+    with open(outp, "rb") as fi:
+        out = fi.read(SHARD_OUT_CAP + 1).decode("utf-8", "replace")
+    try:
+        os.unlink(outp)
+    except OSError:
+        pass
+    if rc != 0 and not out.endswith("\n"):
+        out = out[:out.rfind("\n") + 1]      # drop the partial last line of a killed program
     return rc, out
 
 
-def run_sharded(cmd_prefix, cases, tag, timeout=3600, nshards=None):
+def run_sharded(cmd_prefix, cases, tag, timeout=2400, nshards=None):
     """run `cmd_prefix <casefile>` over the cases split into shards; returns list of
     output lines aligned with cases (a crashed shard yields 'CRASH rc=..' for the
     case at which the output stopped and 'NOT-RUN' afterwards)"""
